@@ -28,8 +28,9 @@ CLAIMED = {
         "degree-2 expectile scores and pinball loss (exact Q arithmetic) and for every Bregman degree incl. Poisson/Gamma (world R: recalibrated forecast scores no worse than the forecast and than any admissible constant), "
         "discrimination 0 for constant forecasts (mean, expectile), miscalibration 0 at fixed points of the recalibration. Tie: whole-function skeleton of decompose and a correspondence run with a recording scoring function "
         "(marginal, recalibrated vector of every column, the four numbers and the exception class compared inside Coq for 12 score configurations). Two genuine defects repaired (fixes e52a7ce, and d3b9226/04732ba under C07).",
-   note="Partial: signs for log loss, asymmetric scores of degree != 2 and quantile scores of degree != 1, dsc = 0 for constant forecasts with quantile scores, and mcb = 0 for the OUTPUT of a recalibration (tie-group pooling) are evaluated by the judge "
-        "on the implementation for every case, not proved. scikit-learn's IsotonicRegression (used for the mean) is an oracle compared with the model on every case. Float rounding: comparator 1e-9, sign judge 1e-12 relative.",
+   note="The sign statements are proved for EVERY library score (asymmetric homogeneous scores and quantile scores of every degree and level, log loss with recalibrated values in (0,1)) in world R, dsc = 0 for constant forecasts for all functionals, "
+        "and mcb = 0 for the output of a recalibration (idempotence). Not proved: log loss when a block is recalibrated to exactly 0 or 1 (outside the real-valued specification, as in C04). scikit-learn's IsotonicRegression (used for the mean) is an oracle "
+        "compared with the model on every case. Float rounding: comparator 1e-9, sign judge 1e-12 relative.",
    technique="Coq proof (ring identity, optimality certificate of C01-C03, Bregman sub-gradient inequality) + whole-function skeleton + vm_compute correspondence with recorded score tables", ref="4 C06"),
  "C07": dict(
    text="Machine-checked proof (Coq) about model/Decompose.v: each column of a forecast matrix gets the single-column result; score and uncertainty are invariant under any permutation of the rows (all functionals); all four columns are "
